@@ -54,7 +54,16 @@ impl StreamState {
 }
 
 pub struct Stream {
+    /// Send window toward the frontend peer (budget of the response DATA a
+    /// `Position::Server` H2 connection may emit on this stream).
     pub window: i32,
+    /// Send window toward the backend peer (budget of the request DATA a
+    /// `Position::Client` H2 connection may emit on this stream). Kept apart
+    /// from `window`: the two peers announce independent
+    /// SETTINGS_INITIAL_WINDOW_SIZE values and grant independent
+    /// WINDOW_UPDATEs (RFC 9113 §6.9). Initialised by
+    /// `ConnectionH2::start_stream` from the backend's settings.
+    pub backend_window: i32,
     pub attempts: u8,
     pub state: StreamState,
     /// True when the frontend connection has received end_of_stream from the client.
@@ -96,6 +105,7 @@ impl Debug for Stream {
     fn fmt(&self, f: &mut std::fmt::Formatter<'_>) -> std::fmt::Result {
         f.debug_struct("Stream")
             .field("window", &self.window)
+            .field("backend_window", &self.backend_window)
             .field("attempts", &self.attempts)
             .field("state", &self.state)
             .field(
@@ -147,6 +157,7 @@ impl Stream {
             state: StreamState::Idle,
             attempts: 0,
             window: i32::try_from(window).unwrap_or(i32::MAX),
+            backend_window: (1 << 16) - 1,
             front_received_end_of_stream: false,
             back_received_end_of_stream: false,
             front_data_received: 0,
@@ -258,7 +269,7 @@ impl Stream {
         );
         match position {
             Position::Client(..) => StreamParts {
-                window: &mut self.window,
+                window: &mut self.backend_window,
                 rbuffer: &mut self.back,
                 wbuffer: &mut self.front,
                 received_end_of_stream: &mut self.back_received_end_of_stream,
